@@ -228,6 +228,36 @@ example : blockName 2 ['a', 't'] [' ', ' ', '0'] = .ok ['a', 't', ' ', ' ', '0']
 -- outside the generated names the inverse fails: the digit-blank-digit quirk
 example : blockName 0 [' ', '5'] ['a', 'b', '1'] = .ok ['a', 'b', '1', '0', '5'] := by decide
 
+/-- **Any** geometry (not only rectangular ones) whose layer and column names are distinct names
+    of the generators — whatever its surface and for the 3 atmosphere types: `setup_block_name_index`
+    yields a duplicate-free list of five-character block names whose parts are the layer and the
+    column (or atmosphere column) they were built from. -/
+theorem block_name_list_distinct {conv : Nat} (hconv : conv < 4) (atmos : Nat) {chars : Str} {spaces : Bool}
+    (h : AlphabetOK chars spaces) {top : Str} {below cols : List Str} (present : Nat → Nat → Bool)
+    (hl : ∀ l ∈ top :: below, IsLayerName conv chars spaces l) (hc : ∀ c ∈ cols, IsColumnName conv chars spaces c)
+    (hln : (top :: below).Nodup) (hcn : cols.Nodup) :
+    ∃ (blocks : List Str) (pairs : List (Str × Str)), blockNameList conv atmos (top :: below) cols present = .ok blocks ∧ blocks.Nodup ∧
+      blocks = pairs.map (fun p : Str × Str => rawBlockName conv p.1 p.2) ∧
+      ∀ p ∈ pairs, p.1 ∈ top :: below ∧ (p.2 ∈ cols ∨ p.2 = atmosphereColumnName conv) ∧
+        (rawBlockName conv p.1 p.2).length = 5 ∧
+        columnName conv (rawBlockName conv p.1 p.2) = some p.2 ∧ layerName conv (rawBlockName conv p.1 p.2) = some p.1 := by
+  have hls : ∀ l ∈ top :: below, LaySafe conv l := by
+    intro l hl'
+    rcases hl l hl' with ⟨k, left, hk⟩ | rfl
+    · exact layer_safe hconv h hk
+    · exact surfaceLayerName_safe hconv
+  have hcs : ∀ c ∈ cols, ColSafe conv c := by
+    intro c hc'
+    rcases hc c hc' with ⟨k, left, hk⟩ | rfl
+    · exact column_safe hconv h hk
+    · exact atmosphereColumnName_safe hconv
+  obtain ⟨b1, b2, b3⟩ := blockNameList_spec hconv atmos present hls hcs hln hcn
+  refine ⟨_, _, b1, b2, rfl, ?_⟩
+  intro p hp
+  obtain ⟨p1, p2, p3, p4⟩ := b3 p hp
+  have := blockName_inv hconv p3 p4
+  exact ⟨p1, p2, this.2.1, this.2.2.1, this.2.2.2⟩
+
 /-! ## every rectangular geometry has distinct, well-formed names -/
 
 /-- Node, column and layer names of `rectangular(…)` (any block counts, the 4 conventions, left or
